@@ -9,7 +9,11 @@
      x<hex>               an array element given verbatim
      B<hex|->             (only item) the whole body given verbatim
    Output:  batch:s=<ok>/f=<failed>:[<entry>,...]   entry = ok:<rawhex> | call:<code>:<msghex>:<-|h<datahex>>
-        or  err:transport | err:parse | err:invalidid | err:notpending *)
+        or  err:transport | err:parse | err:invalidid | err:notpending
+   Single call:  single <idkind:n|s> <pre> <item>
+   the client makes ONE call whose id is `pre`; the server's body is the element text of the item (not wrapped in an
+   array; p<k> = id pre+k in the client's kind; x<hex> / B<hex|-> = the body verbatim).
+   Output:  ok:<rawhex> | call:<code>:<msghex>:<-|h<datahex>> | err:transport | err:parse | err:notpending *)
 open Common
 open Httpbatch_model
 
@@ -55,8 +59,19 @@ let elem idstr lo item : 'b list =
       ser_response { rs_jsonrpc = true; rs_payload = payload; rs_id = id }
     | [] -> failwith "bad item"
 
+let herr_s = function
+  | HTransport -> "err:transport" | HParse -> "err:parse" | HBadId -> "err:invalidid" | HNotPending -> "err:notpending"
+
 let handle line =
   match split_ws line with
+  | ["single"; kind; pre; item] ->
+    let idstr = (kind = "s") in
+    let lo = n_of_string pre in
+    let body = if item.[0] = 'B' then hexb (tail item 1) else elem idstr lo item in
+    print_endline (match http_single (http_mk_id idstr lo) body with
+      | SOk raw -> "ok:" ^ hex_of_bytes raw
+      | SCall e -> err_s e
+      | SErr e -> herr_s e)
   | kind :: pre :: n :: items ->
     let idstr = (kind = "s") in
     let lo = n_of_string pre and n = n_of_string n in
